@@ -230,7 +230,7 @@ class Source:
             break
         return s, a
 
-    def find_item(self, kind, name, lo=0, hi=None):
+    def find_item(self, kind, name, lo=0, hi=None, cfg_eval=None):
         """kind in fn/struct/enum/const/static/type/trait/impl/macro. Returns dict with token
         indices: kw (keyword), start (first qualifier), attr_start, end (last token, inclusive),
         body_open/body_close when braces exist."""
@@ -245,6 +245,20 @@ class Source:
                     continue
                 if nt.kind == "id" and nt.text == name:
                     hits.append(k)
+        if len(hits) > 1 and cfg_eval is not None:
+            # keep the candidates whose #[cfg(..)] attributes are active
+            keep = []
+            for k in hits:
+                s_, a_ = self.item_start(k, lo)
+                ok = True
+                for q in range(a_, s_):
+                    if self.toks[q].text == "cfg" and self.toks[q - 1].text == "[":
+                        e = self.tbl[q + 1]
+                        if cfg_eval([t.text for t in self.toks[q + 2:e]]) is not True:
+                            ok = False
+                if ok:
+                    keep.append(k)
+            hits = keep
         if len(hits) != 1:
             raise LostAnchor("%s: item `%s %s` found %d times" % (self.path, kind, name, len(hits)))
         k = hits[0]
